@@ -111,7 +111,7 @@ def rules(ctx: Ctx) -> None:
                 what = f"->{fld}" if fld else ""
                 ctx.ob("R16.2", f"normalise{what}<-{'+'.join(bad)}@{owner}" if bad else f"normalise{what}@{owner}:{n.lineno - f.lineno}", not bad, loc(f.mod, n),
                        f"`{u(n)[:70]}` normalises a value that is already normalised ({sorted(st)})" if bad else f"`{u(n)[:60]}` normalises {sorted(st)}", trivial=not bad)
-    ctx.floor("constructor name-arguments and normaliser applications judged", n_sites, 50)
+    ctx.floor("constructor name-arguments and normaliser applications judged", n_sites, 41)
 
     # every name field of a model object is written through the normaliser (a position that skips it denotes another entity
     # for upper-case / quoted spellings, e.g. a configured default schema)
